@@ -153,6 +153,21 @@ func TestTamperedBlocksRejected(t *testing.T) {
 				add("Time", "+1", func(b *types.Block) bool { eh(b).Time++; return true })
 				add("Time", "-1", func(b *types.Block) bool { eh(b).Time--; return true })
 				flagOps(func(b *types.Block) *types.BlockFlag { return &eh(b).Flags })
+				// a header carrying BOTH parts: the honest empty part plus a proposed part (another block's, re-pointed
+				// at this parent, or a made-up one): the hash the validator compares must cover what gets stored
+				if other != nil && other.Header.ProposedHeader != nil {
+					add("Header", "add-proposed-part-from-other-block", func(b *types.Block) bool {
+						cp := *other.Header.ProposedHeader
+						cp.Height, cp.ParentHash = eh(b).Height, eh(b).ParentHash
+						b.Header.ProposedHeader = &cp
+						return true
+					})
+				}
+				add("Header", "add-made-up-proposed-part", func(b *types.Block) bool {
+					b.Header.ProposedHeader = &types.ProposedHeader{Height: eh(b).Height, ParentHash: eh(b).ParentHash, Time: eh(b).Time, ProposerPubKey: w.Actors[0].Pub,
+						Root: eh(b).Root, IdentityRoot: eh(b).IdentityRoot, Upgrade: uint32(pos)}
+					return true
+				})
 				// an empty block has no body: transactions attached to it are never applied, yet must not be indexed
 				add("Body", "append-tx-to-empty-block", func(b *types.Block) bool {
 					to := w.Actors[1].Addr
@@ -191,6 +206,16 @@ func TestTamperedBlocksRejected(t *testing.T) {
 				add("Time", "max-int64-drawn", func(b *types.Block) bool { ph(b).Time = math.MaxInt64 - int64(pos); return true })
 				add("Time", "now+1y", func(b *types.Block) bool { ph(b).Time = w.Now().Unix() + 365*24*3600; return true })
 				flagOps(func(b *types.Block) *types.BlockFlag { return &ph(b).Flags })
+				// a header carrying BOTH parts: the proposed block plus the empty block header of this round
+				add("Header", "add-empty-part", func(b *types.Block) bool {
+					e := v.EmptyBlock()
+					if e.Header.EmptyBlockHeader == nil || e.Height() != b.Height() {
+						return false
+					}
+					cp := *e.Header.EmptyBlockHeader
+					b.Header.EmptyBlockHeader = &cp
+					return true
+				})
 				bytesField := func(name string, get func(b *types.Block) *[]byte, fromOther func(o *types.ProposedHeader) []byte) {
 					add(name, "bitflip", func(b *types.Block) bool { p := get(b); *p = flipBit(*p, pos); return true })
 					add(name, "nil", func(b *types.Block) bool {
@@ -346,7 +371,10 @@ func TestTamperedBlocksRejected(t *testing.T) {
 				if !op.apply(c) {
 					continue
 				}
-				if c.Hash() == blk.Hash() && len(c.Body.Transactions) == len(blk.Body.Transactions) {
+				// (a header with two parts keeps the hash of its proposed part: compare the headers' encodings too)
+				hb1, _ := c.Header.ToBytes()
+				hb2, _ := blk.Header.ToBytes()
+				if c.Hash() == blk.Hash() && len(c.Body.Transactions) == len(blk.Body.Transactions) && bytes.Equal(hb1, hb2) {
 					evid.Count("tamper.discarded_identical")
 					continue
 				}
